@@ -123,6 +123,7 @@ class Path:
         self.notes = []
         self.covers = set()
         self.check_obligations = True
+        self.choices = []  # (label, value) of every n-ary environment choice, in order
         self.quantified = False  # set by harnesses whose contracts contain quantifiers
         self.stop_at = None  # frontier exploration: end the path before making decision number stop_at
         self.s_full = z3.Solver()
@@ -227,6 +228,7 @@ class Path:
     def choose(self, n, label="") -> int:
         """n-ary nondeterministic choice (no feasibility filtering)."""
         if n == 1:
+            self.choices.append((label, 0))
             return 0
         d = self._next_decision()
         if d is None and self.stop_at is not None and len(self.taken) >= self.stop_at:
@@ -236,6 +238,7 @@ class Path:
                 self.alts.append(self.taken + [i])
             d = 0
         self.taken.append(d)
+        self.choices.append((label, d))
         return d
 
     # -- obligations ------------------------------------------------------
